@@ -21,7 +21,14 @@ def run(chk):
         "by correspondence of its Gallina model with both the implementation and the quasiseparable model",
         "kernel matrices / generators / Kalman tables (A, H, Pinf) are taken from the implementation as data",
     ]
-    proof_ok = chk.prove()
+    # C03_builtin_kernels_kalman is about the state-space tables regenerated from the source on this run
+    from vcheck.w2common import run_translator
+    trans_ok, trans_msg = run_translator(chk)
+    proof_ok = chk.prove() if trans_ok else False
+    if not trans_ok:
+        chk.cov.update(obligations=0, discharged=0, checker_cmd="(translator failed before make)", trusted_base=[])
+        chk.proof = dict(failing_file="tools/translate/gen_kernels.py", failing_line=0, failing_theorem="translator rejects the current source",
+                         log=trans_msg)
     rng = np.random.default_rng(chk.seed)
     quick = chk.tier == "quick"
     qk, mk = gpcases.qs_kernels(), gpcases.means(rng)
